@@ -1,7 +1,23 @@
 """C03: the asynchronous hand-off preserves content and order, runs sinks only on the worker, never blocks callers on a sink (engine vsched)."""
+import os
+import vlib
 import vsrun
 
 PROP = "C03"
+
+
+def nested_and_stop(tier):
+    """asynchronous histories in which (a) the sink itself logs a message on the logger thread while a backlog is queued, (b) a second
+    thread logs while the stop delivers queued messages: first-in-first-out in real time, no sink re-entered, nothing on two threads"""
+    hs = ["AMLLL", "AMLLLR", "AMLL 2 2", "AMLLR 3 1", "MLLR 3 1", "MLLR 3 2", "AMLaLLR 6 1", "AMLaLLR 5 2"]
+    if tier != "quick":
+        hs += ["AMLLLX", "AMLLL 3 2", "MLLLR 4 2", "AMLLaLR 6 2", "AMLRMLL 5 1"]
+    p = os.path.join(vlib.BUILD, "c03-hist.txt")
+    os.makedirs(vlib.BUILD, exist_ok=True)
+    open(p, "w").write("\n".join(hs) + "\n")
+    b = 2 if tier == "quick" else 3
+    return [{"scenario": "c04xh", "hists-file": p, "bound": b, "glib": 1, "nested": 1, "_shards": len(hs), "_nhist": len(hs)},
+            {"scenario": "c04xl", "hists-file": p, "bound": b - 1, "glib": 0, "nested": 1, "_shards": len(hs), "_nhist": len(hs)}]
 
 
 def run(tier):
@@ -9,10 +25,12 @@ def run(tier):
         scs = [dict(scenario="c03h", p=2, m=2, bound=2, glib=1), dict(scenario="c03h", p=2, m=1, bound=2, glib=0), dict(scenario="c03h", p=3, m=1, bound=1, glib=1),
                dict(scenario="c03g", p=2, m=2, bound=1, glib=1, _shards=16), dict(scenario="c03g", p=1, m=5, bound=2, glib=0), dict(scenario="c03h", p=1, m=4, bound=2, glib=1)]
         dl = 150
+        scs += nested_and_stop(tier)
     else:
         scs = [dict(scenario="c03h", p=2, m=2, bound=3, glib=1), dict(scenario="c03h", p=2, m=2, bound=2, glib=0), dict(scenario="c03h", p=3, m=1, bound=2, glib=1), dict(scenario="c03h", p=2, m=3, bound=2, glib=1),
                dict(scenario="c03g", p=2, m=2, bound=2, glib=1), dict(scenario="c03g", p=2, m=3, bound=1, glib=0, _shards=16), dict(scenario="c03g", p=1, m=5, bound=3, glib=1), dict(scenario="c03h", p=1, m=5, bound=3, glib=0)]
         dl = 1500
+        scs += nested_and_stop(tier)
     return vsrun.vs_check(
         PROP, tier, scs, deadline_s=dl, min_outcomes=2,
         race_scenarios=[dict(scenario="c03h", p=2, m=2, bound=1, glib=1), dict(scenario="c03g", p=2, m=2, bound=1, glib=1)] if tier == "quick" else
@@ -24,7 +42,9 @@ def run(tier):
              "delivery on the worker thread, while the worker is inside a sink no other thread waits (or starts waiting) for any lock the worker holds; both event-dispatcher variants. Each producer "
              "REUSES one caller-owned buffer for the file/function/category strings of all its messages (same address, new contents) and poisons it after every call. Scenario c03g: the same "
              "through a Logger moved to its own thread, entered through processMessage() with the caller's QMessageLogContext, all five message types including fatal; the message object is "
-             "created inside the call, so time / steady time must lie inside the producer's call interval and the thread id must be the producer's; distinct_nontrivial = distinct delivery orders",
+             "created inside the call, so time / steady time must lie inside the producer's call interval and the thread id must be the producer's. Scenarios c04x* with nested=1: operation histories in "
+             "which the sink itself logs a message on the logger thread while a backlog is queued, and a second thread logs while a stop delivers queued messages: a call that returned before another "
+             "began is delivered first, no sink is re-entered or entered by two threads; distinct_nontrivial = distinct delivery orders",
         assumptions=vsrun.VS_ASSUMPTIONS + ["null and empty C strings are identified (the copy constructor turns nullptr into \"\")"])
 
 
